@@ -48,13 +48,17 @@ func subset(jobs []Job, want int) []int {
 }
 
 func runNative(bin string, env []string, jobs []nativeJob) ([]nativeResult, string, error) {
+	return runNativeMode(bin, "conf", env, jobs)
+}
+
+func runNativeMode(bin, mode string, env []string, jobs []nativeJob) ([]nativeResult, string, error) {
 	var in bytes.Buffer
 	for _, j := range jobs {
 		b, _ := json.Marshal(j)
 		in.Write(b)
 		in.WriteByte('\n')
 	}
-	cmd := exec.Command(bin, "conf")
+	cmd := exec.Command(bin, mode)
 	cmd.Stdin = &in
 	cmd.Env = append(os.Environ(), env...)
 	var stderr bytes.Buffer
@@ -147,6 +151,62 @@ func conformance(r *chk.Run, prop string, jobs []Job, results []*e1.Result) {
 		r.Set("conformance_outside_samples", outsideSamples)
 	}
 	r.Assume("conformance: free-running outcomes are compared with the outcome set of the bounded exploration; an outcome outside it only shows that the free schedule needs more deviations than the bound and is reported, not judged")
+}
+
+// conformanceTCP repeats the binding over real loopback TCP sockets (the
+// driver's standard dialer, a listener served by the same simulated master).
+func conformanceTCP(r *chk.Run, prop string, jobs []Job, results []*e1.Result) {
+	bin := os.Getenv("VERIF_NATIVE_BIN")
+	if bin == "" || r.Violated() {
+		return
+	}
+	var idx []int
+	for _, i := range subset(jobs, 400) {
+		sc := jobs[i].Sc
+		if sc.Pacing != "first" {
+			continue
+		}
+		if c := sc.Attempts[0].Cancel; c != nil && c.Kind == "consumed" {
+			continue
+		}
+		idx = append(idx, i)
+		if len(idx) >= 60 {
+			break
+		}
+	}
+	var nj []nativeJob
+	for _, i := range idx {
+		nj = append(nj, nativeJob{Sc: jobs[i].Sc, Runs: 5})
+	}
+	res, stderr, err := runNativeMode(bin, "conftcp", nil, nj)
+	if len(res) > 0 && res[0].Name == "TCP-UNAVAILABLE" {
+		r.Set("conformance_tcp", "skipped: no loopback listener available in this environment")
+		return
+	}
+	if err != nil || len(res) != len(nj) {
+		r.Set("conformance_tcp", fmt.Sprintf("skipped: native TCP pass did not complete (%v, %d of %d results) %s", err, len(res), len(nj), clipS(stderr, 200)))
+		return
+	}
+	var member, outside int64
+	for k, nr := range res {
+		er := results[idx[k]]
+		if er == nil || !er.Complete {
+			continue
+		}
+		for key, n := range nr.Keys {
+			if _, ok := er.Outcomes[key]; ok {
+				member += int64(n)
+			} else {
+				outside += int64(n)
+			}
+		}
+		if prop == "C05" && (nr.Leaked > 0 || nr.Blocked > 0) {
+			r.Report(chk.Violation{Key: "native-tcp:residue", What: fmt.Sprintf("free-running execution over loopback TCP, scenario %s: library goroutine alive 10 s after return or call blocked 20 s (outcomes %v)", nr.Name, nr.Keys),
+				Kind: "C05-native", Replay: replayInput{Sc: jobs[idx[k]].Sc}})
+		}
+	}
+	r.Validated(member)
+	r.Set("conformance_tcp", fmt.Sprintf("%d free runs over loopback TCP sockets: %d outcomes inside the explored outcome set, %d outside the explored bound", member+outside, member, outside))
 }
 
 func keysOf(m map[string]int) []string {
